@@ -67,6 +67,15 @@ ROUND5 = """IMPORTANT - already taken: in earlier rounds the changes listed belo
 """
 
 
+ROUND6 = """IMPORTANT - already taken: in earlier rounds the changes listed below were produced for this property. Do NOT repeat them or close variants (same line, same mechanism). This is the SIXTH round; the checks being evaluated have been hardened against all of them (histories on one object, interleaved objects, compositions, boundary values of single fields, environment such as logging level and warnings filters). Go for -
+  * SCALE: the change is invisible on small objects and shows only when something is large - more than 255 / 256 modules or patterns, module numbers / link targets / slot numbers above 127, 255 or 32767, patterns with hundreds of lines or 16+ tracks, names at or beyond their byte limits, sample data of 64 KiB and more, 100+ links on one module, 96 user-defined controllers all in use, deep nesting (4+ levels), thousands of operations in one history;
+  * the LEAST OBVIOUS CLAUSE of the statement: read the statement clause by clause and break only a clause that a hurried checker would not test (a secondary guarantee, an "and ..." at the end of a sentence, a stated exception or limit, an error case, a return value);
+  * combinations of TWO rare conditions (each alone is handled correctly);
+  * behaviour that differs only for the SECOND and later occurrences (second empty slot, second freed link, second nested container, second sample, second save of a clone).
+
+"""
+
+
 def main():
     rnd, root = sys.argv[1], sys.argv[2]
     props = [json.loads(l) for l in open(os.path.join(VERIF, "properties.jsonl"))]
@@ -76,14 +85,14 @@ def main():
         files = (p.get("anchors") or {}).get("files", [])
         txt = HEAD.format(wt=wt, pid=pid, title=p.get("title", ""), statement=p.get("statement", ""),
                           quant=(p.get("quantifier") or {}).get("text", ""), files=", ".join(map(str, files)))
-        txt += ROUND5 if rnd == "5" else ROUND4
+        txt += ROUND6 if rnd == "6" else ROUND5 if rnd == "5" else ROUND4
         k = 0
         for d in sorted(glob.glob(os.path.join(VERIF, "seeded", pid + "-*"))):
             nf = os.path.join(d, "notes.md")
             if not os.path.exists(nf):
                 continue
             k += 1
-            txt += "--- earlier change %d ---\n%s\n\n" % (k, open(nf).read().strip()[:380])
+            txt += "--- earlier change %d ---\n%s\n\n" % (k, open(nf).read().strip()[:330])
         os.makedirs(root, exist_ok=True)
         open("%s/%s.prompt.txt" % (root, pid), "w").write(txt)
     print("wrote %d prompts under %s" % (len(props), root))
